@@ -1066,6 +1066,8 @@ class Explorer(object):
             "queries_unsat": sum(1 for o in obs if o.status == "unsat"),
             "queries_sat": sum(1 for o in obs if o.status == "sat"),
             "queries_unknown": sum(1 for o in obs if o.status == "unknown"),
+            "queries_nontrivial": sum(1 for o in obs if o.how not in ("concrete", "simplify")),
+            "queries_by_ring_tactic": sum(1 for o in obs if o.how and o.how.replace("ring", "").strip(";") == ""),
             "feasibility_queries": sum(p.feas_queries for p in self.paths),
             "unknown_feasibility": self.unknown_feasibility,
             "solver_time_s": round(sum(p.solver_time for p in self.paths), 3),
